@@ -171,6 +171,7 @@ func vBigEq(a, b *big.Int) bool {
 
 func vBigLess(a, b *big.Int) bool { return a.Cmp(b) < 0 }
 
+func vDump(name string, v interface{}) {}
 func vSmallGroup(expBits int) {}
 func vBigStrip(n int)         {}
 func vIsSymbolic() bool       { return false }
